@@ -465,6 +465,11 @@ fn create_inbound_scmp_error(err: PacketPolicyError) -> scmp::model::ScmpMessage
     }
 }
 
+/// Verification hooks (add-only, off by default): see `verif_hooks.rs`.
+#[cfg(feature = "verif-hooks")]
+#[path = "verif_hooks.rs"]
+pub mod verif_hooks;
+
 #[cfg(test)]
 mod tests {
     use std::{
